@@ -146,7 +146,13 @@ class TypeObject:
             # The answer depends on the generic arguments of the protocol (self_val) and
             # on whether Any is excluded, not just on the other value.
             cache_key = (self_val, other_val, ctx.should_exclude_any())
-            bounds_map = self._protocol_positive_cache.get(cache_key)
+            try:
+                bounds_map = self._protocol_positive_cache.get(cache_key)
+            except TypeError:
+                # A value may contain an unhashable object (e.g. a predicate that
+                # compares with a list); then we simply do not cache.
+                cache_key = None
+                bounds_map = None
             if bounds_map is not None:
                 return bounds_map
             # This is a guard against infinite recursion if the Protocol is recursive
@@ -162,7 +168,7 @@ class TypeObject:
                         if not isinstance(subresult, CanAssignError):
                             result = subresult
                             break
-            if not isinstance(result, CanAssignError):
+            if not isinstance(result, CanAssignError) and cache_key is not None:
                 self._protocol_positive_cache[cache_key] = result
             return result
 
